@@ -46,7 +46,7 @@ theorem sim_set_stopped {a b : State ρ} (h : Sim a b) : Sim { a with stopped :=
   exact Sim.of_fields ⟨g1, g2, g3, g4, g5, g6, rfl, g8, g9⟩
 
 section
-variable (v : Variant) (Z : Zip) (C : Codec ρ) (hr : v.resetOnError = true)
+variable (v : Variant) (Z : Zip) (C : Codec ρ) (hr : v.sound = true)
 include hr
 
 theorem sendAndClear_sim {s t : State ρ} (h : Sim s t) :
@@ -66,10 +66,12 @@ theorem appendRec_sim {s t : State ρ} (h : Sim s t) (r : ρ) :
   have ha : Sim (appended C s r) (appended C t r) :=
     Sim.of_fields (by simp [appended, h1, h2, h3, h4, h5, h6, h7, h8, h9])
   have hm : mustFlush C s r ↔ mustFlush C t r := by unfold mustFlush; rw [h1, h4, h6]
-  rw [appendRec_eq, appendRec_eq]
-  by_cases hf : mustFlush C s r
-  · rw [if_pos hf, if_pos (hm.mp hf)]; exact sendAndClear_sim v Z C hr ha
-  · rw [if_neg hf, if_neg (fun x => hf (hm.mpr x))]; exact ⟨ha, rfl⟩
+  cases hb : C.fails r
+  · rw [appendRec_ok v Z C s r hb, appendRec_ok v Z C t r hb, appendOk_eq, appendOk_eq]
+    by_cases hf : mustFlush C s r
+    · rw [if_pos hf, if_pos (hm.mp hf)]; exact sendAndClear_sim v Z C hr ha
+    · rw [if_neg hf, if_neg (fun x => hf (hm.mpr x))]; exact ⟨ha, rfl⟩
+  · rw [append_fail_noop v Z C s r hr hb, append_fail_noop v Z C t r hr hb]; exact ⟨h, rfl⟩
 
 theorem drain_sim (q : List ρ) : ∀ {s t : State ρ}, Sim s t →
     Sim (drain v Z C s q).1 (drain v Z C t q).1 ∧ (drain v Z C s q).2 = (drain v Z C t q).2 := by
@@ -172,7 +174,7 @@ end
 /-! ### whole histories -/
 
 section
-variable (v : Variant) (Z : Zip) (C : Codec ρ) (hr : v.resetOnError = true)
+variable (v : Variant) (Z : Zip) (C : Codec ρ) (hr : v.sound = true)
 include hr
 
 theorem stepIn_sim {s t : State ρ} (h : Sim s t) (i : In ρ) :
